@@ -143,7 +143,7 @@ func serverSession(tag byte, n int) func(l logger) {
 		}{bytes.NewReader(req), &out})
 		l.Logf("upgrade err=%v hs=%s resp=%s", err, snapHs(h), sum(out.Bytes()))
 		p1, p2 := fill(n, tag), fill(n/2+1, tag+1)
-		ping := fill(40, tag+2)
+		ping := fill(100, tag+2) // 100+header bytes: the 128-byte pool class, shared with the other sessions
 		stream := append(append(append(mkFrame(1, false, true, []byte("frag-"+string(tag))), mkFrame(9, true, true, ping)...), mkFrame(0, true, true, []byte("-end"))...), mkFrame(2, true, true, p1)...)
 		stream = append(stream, mkFrame(2, false, true, p2)...)
 		stream = append(stream, mkFrame(0, true, true, p1)...)
@@ -198,7 +198,7 @@ func clientSessionX(tag byte, n int, shared bool) func(l logger) {
 			ptag = ""
 		}
 		srvMsg := fill(n, tag+3)
-		ping := fill(33, tag+4)
+		ping := fill(100, tag+4)
 		trailing := append(append(append(mkFrame(1, true, false, []byte("hello-"+string(tag))), mkFrame(9, true, false, ping)...), mkFrame(2, true, false, srvMsg)...),
 			mkFrame(8, true, false, ws.NewCloseFrameBody(1000, "bye-"+string(tag)))...)
 		conn := &hs.LazyConn{}
@@ -242,6 +242,12 @@ func clientSessionX(tag byte, n int, shared bool) func(l logger) {
 // utilSession: writer pool, cipher writer, compression helpers, close handling, compiled frames.
 func utilSession(tag byte, n int) func(l logger) {
 	return func(l logger) {
+		// an invalid close with a long reason (a failed operation that still goes through the
+		// pooled 128-byte class) before anything else
+		bad := ws.NewCloseFrameBody(1005, strings.Repeat("r", 100))
+		db := newDst(l)
+		berr := wsutil.ControlHandler{Src: bytes.NewReader(bad), Dst: db, State: ws.StateClientSide, DisableSrcCiphering: true}.Handle(ws.Header{Fin: true, OpCode: ws.OpClose, Length: int64(len(bad))})
+		l.Logf("bad-close err=%v reply=%s", berr, framesLog(db.Bytes()))
 		// a writer whose Size() is a pool class, so that PutWriter really recycles it
 		d0 := newDst(l)
 		w0 := wsutil.NewWriterSize(d0, ws.StateServerSide, ws.OpText, 128)
@@ -274,7 +280,7 @@ func utilSession(tag byte, n int) func(l logger) {
 		d4.Write(ws.CompiledCloseNormalClosure)
 		l.Logf("compiled %s", framesLog(d4.Bytes()))
 		d5 := newDst(l)
-		wsutil.ControlHandler{Src: bytes.NewReader(fill(60, tag)), Dst: d5, State: ws.StateClientSide, DisableSrcCiphering: true}.Handle(ws.Header{Fin: true, OpCode: ws.OpPing, Length: 60})
+		wsutil.ControlHandler{Src: ySrc{bytes.NewReader(fill(100, tag)), l}, Dst: d5, State: ws.StateClientSide, DisableSrcCiphering: true}.Handle(ws.Header{Fin: true, OpCode: ws.OpPing, Length: 100})
 		l.Logf("pong %s", framesLog(d5.Bytes()))
 		if ce, ok := cerr.(wsutil.ClosedError); ok {
 			l.Logf("end closed reason=%q", ce.Reason)
@@ -538,7 +544,7 @@ func main() {
 			}
 		})
 		r.Part("E3-unbounded-state-pruned", func(t *explore.T) {
-			ms := [][]string{{"S3", "S3b"}}
+			ms := [][]string{{"S2s", "S2t"}}
 			if t.Thorough() {
 				ms = append(append([][]string{}, mixes2...), mixes3...)
 			}
